@@ -68,8 +68,18 @@ def do_OP_2SWAP(stack: Any) -> None:
     stack.append(stack.pop(-4))
 
 
+def _cast_to_bool(v: Any) -> bool:
+    if not isinstance(v, (bytes, bytearray)):
+        return bool(v)
+    # CastToBool: any non-zero byte, except a trailing sign bit (negative zero)
+    for i, b in enumerate(v):
+        if b != 0:
+            return not (i == len(v) - 1 and b == 0x80)
+    return False
+
+
 def do_OP_IFDUP(stack: Any) -> None:
-    if stack[-1]:
+    if _cast_to_bool(stack[-1]):
         stack.append(stack[-1])
 
 
